@@ -469,6 +469,10 @@ class Evaluator:
 
             def sub(env):
                 d, k = base(env), key(env)
+                if isinstance(d, str) and isinstance(k, int):
+                    if not -len(d) <= k < len(d):
+                        raise _EvalRaise(f'IndexError({k})')
+                    return d[k]
                 if not isinstance(d, dict):
                     raise AnalysisError(f'{self.p.name}: subscript of a non-dict value in `{pf.nsrc(e)}`')
                 if k not in d:
@@ -517,18 +521,18 @@ def _candidates(resource: str, units: List[str]) -> List[Tuple[str, str, Optiona
     """(text, number, unit) - accepted spellings the arithmetic is evaluated on."""
     nums: List[str] = []
     if resource == 'cpu':
-        for i in range(0, 3):
+        for i in range(0, 4):
             nums.append(str(i))
             for w in (1, 2, 3):
                 nums += [f'{i}.{d:0{w}d}' for d in range(10 ** w)]
-        nums += [str(k) for k in range(3, 1101)]
+        nums += [str(k) for k in range(4, 2051)]
     else:
         for i in range(0, 3):
             nums.append(str(i))
             for w in (1, 2):
                 nums += [f'{i}.{d:0{w}d}' for d in range(10 ** w)]
-        nums += [f'0.{d:03d}' for d in range(1, 1000, 3)]
-        nums += [str(k) for k in range(3, 33)]
+        nums += [f'0.{d:03d}' for d in range(1000)]
+        nums += [str(k) for k in range(3, 65)]
     nums += ['.5', '.001', '007', '1.0005', '0.0015', '0.0001', '1.0000000000000000001', '9007199254740993', '0.30000000000000004',
              '123456789.123456789']
     out = []
@@ -559,7 +563,8 @@ def _check_exactness(ctx: Ctx, p: ParseFn, units: List[str]) -> int:
     dfa = R.to_dfa(p.full, R.alphabet_for([p.full]))
     rets = [n for n in pf.walk_shallow(p.fn) if isinstance(n, ast.Return) and n.value is not None
             and not (isinstance(n.value, ast.Constant) and n.value.value is None)]
-    cands = _candidates(p.resource, units)
+    spec_units = SPEC_CPU_UNITS if p.resource == 'cpu' else SPEC_UNITS
+    cands = _candidates(p.resource, [u for u in units if u in spec_units])  # units outside the statement are R2's business
     for text, _n, _u in cands:
         if not dfa.accepts(text):
             raise AnalysisError(f'{p.name}: candidate spelling {text!r} is not in the regex language (R2 would have to fail first)')
@@ -695,7 +700,10 @@ def _check_front_end(ctx: Ctx, parse: Dict[str, ParseFn], server: Dict[str, R.La
 # --------------------------------------------------------------------------------------
 
 
-def _check_other_users(ctx: Ctx, parse: Dict[str, ParseFn], files: List[str]) -> None:
+def _check_other_users(ctx: Ctx, parse: Dict[str, ParseFn], client: Dict[str, R.Lang], files: List[str]) -> None:
+    """Every other matching call that uses one of the three patterns/objects: when it sits in a one-parameter lambda (a validation
+    predicate) the whole lambda body is translated and must accept exactly the client language of that resource (named memory types
+    included); otherwise the call alone must accept the parse function's language."""
     sym_to_res = {}
     for res, (_fn, obj, pat) in RESOURCES.items():
         sym_to_res['hailtop.batch_client.parse.' + obj] = res
@@ -703,29 +711,41 @@ def _check_other_users(ctx: Ctx, parse: Dict[str, ParseFn], files: List[str]) ->
     n = 0
     for rel in files:
         m = pf.load(rel)
-        imps = m.imports()
-        local = {name: sym_to_res[o] for name, o in imps.items() if o in sym_to_res}
+        local = {name: sym_to_res[o] for name, o in sp.imports_of(m).items() if o in sym_to_res}
         if not local:
             continue
+        par = m.parents()
         for node in ast.walk(m.tree):
-            if not isinstance(node, ast.Call):
+            if not isinstance(node, ast.Call) or not isinstance(node.func, ast.Attribute) or node.func.attr not in R.MODES:
+                continue
+            uses = [x.id for a in list(node.args) + [node.func] for x in ast.walk(a) if isinstance(x, ast.Name) and x.id in local]
+            if not uses:
                 continue
             fn = m.enclosing_func(node)
-            uses = [x.id for a in list(node.args) + [node.func] for x in ast.walk(a) if isinstance(x, ast.Name) and x.id in local]
-            if not uses or not isinstance(node.func, ast.Attribute) or node.func.attr not in R.MODES:
-                continue
-            rc = sp.regex_call(m, fn if not isinstance(fn, ast.Lambda) else None, node)
+            rc = sp.regex_call(m, fn, node)
             if rc is None:
                 continue
-            rd, mode, _subject = rc
+            rd, mode, subject = rc
             res = local[uses[0]]
-            L = R.from_regex(rd.pattern, rd.flags, mode)
-            cmp = R.compare(L, parse[res].lang)
+            where = f'{rel}::{m.qualname(fn) if fn is not None else "<module>"}'
+            lam = par.get(node)
+            while lam is not None and not isinstance(lam, (ast.Lambda, ast.FunctionDef, ast.AsyncFunctionDef)):
+                lam = par.get(lam)
             n += 1
-            ctx.check(cmp.equal, 'R1', f'{rel}::{m.qualname(fn) if fn is not None else "<module>"}::{pf.nsrc(node)}',
-                      f'`{pf.nsrc(node)}` ({mode}) does not accept the same {res} strings as {parse[res].name}: '
-                      + (f'accepts {cmp.only_a!r} which the parser rejects' if cmp.only_a is not None else f'rejects {cmp.only_b!r} which the parser accepts'),
-                      m.path, node.lineno, detail={'mode': mode, 'resource': res})
+            if isinstance(lam, ast.Lambda) and len(lam.args.args) == 1 and isinstance(subject, ast.Name) and subject.id == lam.args.args[0].arg:
+                tr = sp.Translator(m, None, subject.id)
+                L = tr.cond(lam.body)
+                cmp = R.compare(L, client[res])
+                ctx.check(cmp.equal, 'R1', f'{where}::lambda {subject.id}: {pf.nsrc(lam.body)}',
+                          f'the validation predicate `{pf.nsrc(lam.body)}` does not accept the same {res} strings as the batch client/server: '
+                          + (f'accepts {cmp.only_a!r}, which they reject' if cmp.only_a is not None else f'rejects {cmp.only_b!r}, which they accept'),
+                          m.path, node.lineno, detail={'mode': mode, 'resource': res, 'idioms': tr.idioms})
+            else:
+                cmp = R.compare(R.from_regex(rd.pattern, rd.flags, mode), parse[res].lang)
+                ctx.check(cmp.equal, 'R1', f'{where}::{pf.nsrc(node)}',
+                          f'`{pf.nsrc(node)}` ({mode}) does not accept the same {res} strings as {parse[res].name}: '
+                          + (f'accepts {cmp.only_a!r} which the parser rejects' if cmp.only_a is not None else f'rejects {cmp.only_b!r} which the parser accepts'),
+                          m.path, node.lineno, detail={'mode': mode, 'resource': res})
     ctx.unit('other_pattern_uses', n)
 
 
@@ -821,32 +841,28 @@ def run(ctx: Ctx) -> None:
     vlib = ValidatorLib(ctx)
     server_exprs = _server_validators(ctx, mv)
     imps_v = mv.imports()
-    named_memory: List[str] = []
+    mg = pf.load('batch/batch/globals.py')
+    mt = sp.module_const(mg, 'memory_types')
+    ctx.need(isinstance(mt, (ast.Tuple, ast.List)) and mt.elts, 'batch/batch/globals.py: memory_types is not a tuple literal')
+    named_memory: List[str] = [sp.const_string(mg, None, x) for x in mt.elts]  # type: ignore[union-attr]
     server: Dict[str, R.Lang] = {}
+    client_lang: Dict[str, R.Lang] = {}
     for res, p in parse.items():
         _check_none_iff_no_match(ctx, p)
         L, info = vlib.language(ctx, mv, server_exprs[res])
         server[res] = L
         client = p.lang
         if res == 'memory':
-            # the named types are whatever oneof(...) alternatives the validator lists; they must be exactly batch.globals.memory_types
-            def collect(i: dict) -> List[str]:
-                out = list(i.get('oneof', []))
-                for x in i.get('anyof', []):
-                    out += collect(x)
-                return out
-            named_memory = collect(info)
-            mt = ValidatorLib._resolve_tuple(ctx, mv, 'memory_types') if 'memory_types' in imps_v else named_memory
-            ctx.need(sorted(named_memory) == sorted(mt), f'{F_VALIDATE}: named memory alternatives {named_memory} differ from memory_types {mt}')
-            if named_memory:
-                client = client | R.lang(R.alt(*[R.lit(s) for s in named_memory]), 'named memory types')
+            # the front end resolves the named memory types (batch.globals.memory_types) before parsing
+            client = client | R.lang(R.alt(*[R.lit(x) for x in named_memory]), 'named memory types')
+        client_lang[res] = client
         cmp = R.compare(L, client)
         msg = ''
         if not cmp.equal:
-            msg = (f"the job validator for resources[{res!r}] (`{pf.nsrc(server_exprs[res])}`, RegexValidator uses re_obj.{vlib.mode}) admits {cmp.only_a!r}, "
+            msg = (f"the job validator for resources[{res!r}] (`{pf.nsrc(server_exprs[res])}`; RegexValidator.validate uses re_obj.{vlib.mode}) admits {cmp.only_a!r}, "
                    f"which {p.name} (`{pf.nsrc(p.call)}`) rejects" if cmp.only_a is not None else
-                   f"the job validator for resources[{res!r}] (`{pf.nsrc(server_exprs[res])}`, RegexValidator uses re_obj.{vlib.mode}) rejects {cmp.only_b!r}, "
-                   f"which the client-side {p.name} (`{pf.nsrc(p.call)}`) accepts")
+                   f"the job validator for resources[{res!r}] (`{pf.nsrc(server_exprs[res])}`; RegexValidator.validate uses re_obj.{vlib.mode}) rejects {cmp.only_b!r}, "
+                   f"which the client side ({p.name}, `{pf.nsrc(p.call)}`" + (', or a named memory type' if res == 'memory' else '') + ') accepts')
         ctx.check(cmp.equal, 'R1', f"{F_VALIDATE}::job_validator['resources'][{res!r}] == {p.name}", msg, mv.path, getattr(server_exprs[res], 'lineno', 0),
                   detail=dict(cmp.describe(), server=info, client_mode=p.mode))
     _check_front_end(ctx, parse, server, named_memory)
@@ -854,7 +870,7 @@ def run(ctx: Ctx) -> None:
     if ctx.tier == 'thorough':
         files = sorted(set(files) | set(pf.walk_py(['hail/python/hailtop', 'batch/batch', 'ci/ci', 'gear/gear'])))
         ctx.unit('files_scanned_for_pattern_uses', len(files))
-    _check_other_users(ctx, parse, [f for f in files if f != F_PARSE])
+    _check_other_users(ctx, parse, client_lang, [f for f in files if f != F_PARSE])
 
     # ---------------- R3
     total = 0
